@@ -30,6 +30,7 @@ class Ctx:
         self.oblig = []
         self.fresh = 0
         self.stub_calls = []          # (kind, key terms, output terms) in interpretation order
+        self.key_parent = {}          # split output symbol -> (parent key terms, num, k, j)
 
     def new(self, base, sort):
         self.fresh += 1
@@ -569,6 +570,7 @@ class Interp:
             for k in range(num):
                 for j in range(len(key)):
                     out[k, j] = tm.var(f"K[{kid}]s{k}w{j}", "Int")
+                    self.ctx.key_parent[out[k, j]] = (tuple(key), num, k, j)
             return out
         if name == "rs_uniform":
             shape = p["shape"]
@@ -578,7 +580,7 @@ class Interp:
                 self.ctx.assume.append(tm.cmp("le", const(0, "Real"), u))
                 self.ctx.assume.append(tm.cmp("lt", u, const(1, "Real")))
                 out[ix] = u
-            self.ctx.stub_calls.append(("uniform", key, out))
+            self.ctx.stub_calls.append(("uniform", key, out, kid))
             return out
         if name in ("rs_perm", "rs_perm_nop"):
             n = p["n"]
@@ -591,7 +593,7 @@ class Interp:
                     # zero-probability entries never precede positive ones (Gumbel top-k behaviour)
                     self.ctx.assume.append(tm.bor(pos[i], tm.bnot(pos[i + 1])))
             out = np.empty((n,), dtype=object); out[:] = pi
-            self.ctx.stub_calls.append(("perm", key, B))
+            self.ctx.stub_calls.append(("perm", key, B, kid))
             return out
         raise NotEncodable(name)
 
